@@ -50,7 +50,7 @@ impl Property for C06 {
     }
     fn budget(tier: Tier) -> u64 {
         match tier {
-            Tier::Quick => 16_000,
+            Tier::Quick => 30_000,
             Tier::Thorough => 200_000,
         }
     }
